@@ -3,7 +3,7 @@
 cd "$(dirname "$0")/.."
 tier=${1:-quick}; seed=${2:-1}
 for c in $(python3 -c "import json;print(' '.join(x['property_id'] for x in json.load(open('MANIFEST.json'))['checks']))"); do
-  ./check $c --tier $tier --seed $seed > /tmp/run_all_$c.log 2>&1; rc=$?
-  echo "$c rc=$rc $(grep ' tier=' /tmp/run_all_$c.log | tail -1)"
-  grep '^VIOLATION' /tmp/run_all_$c.log | head -5
+  ./check $c --tier $tier --seed $seed > ${RUN_ALL_LOGDIR:-/tmp}/run_all_$c.log 2>&1; rc=$?
+  echo "$c rc=$rc $(grep ' tier=' ${RUN_ALL_LOGDIR:-/tmp}/run_all_$c.log | tail -1)"
+  grep '^VIOLATION' ${RUN_ALL_LOGDIR:-/tmp}/run_all_$c.log | head -5
 done
